@@ -161,7 +161,8 @@ EXPECT_VERDICT = {'d_requires_dotted_missing': 'skipped', 'd_requires_dotted_pre
 
 
 def observe(ex, default_state):
-    ex.config['default_runtime_state'] = dict(default_state) if default_state else {}
+    # the runner hands ONE options dict to every doctest of a run (config.update is shallow): share it here too
+    ex.config['default_runtime_state'] = default_state if default_state else {}
     before_filters = list(warnings.filters)
     so = sys.stdout
     try:
@@ -206,6 +207,7 @@ def history_search(ctx):
         mod_snapshot = None
         for hi, hist in enumerate(histories):
             dflt = [None, {'IGNORE_WHITESPACE': False}, {'ELLIPSIS': True, 'SKIP': False}][hi % 3]
+            dflt_pristine = copy.deepcopy(dflt)
             fresh = collect() if hi % 4 == 0 else None
             for pos, name in enumerate(hist):
                 ex = (fresh or objs)[name]
@@ -220,6 +222,9 @@ def history_search(ctx):
                     baseline[key] = obs
                 elif obs != baseline[key]:
                     problem = 'doctest %s behaves differently after %r: %r, alone/first: %r' % (name, hist[:pos], obs, baseline[key])
+                if dflt != dflt_pristine:
+                    problem = 'the default options shared by the doctests of a run were changed by running %r: %r (were %r)' % (hist[:pos + 1], dflt, dflt_pristine)
+                    dflt = copy.deepcopy(dflt_pristine)
                 if directive.DEFAULT_RUNTIME_STATE != pristine:
                     problem = 'directive.DEFAULT_RUNTIME_STATE changed after running %r: %r' % (hist[:pos + 1], directive.DEFAULT_RUNTIME_STATE)
                     directive.DEFAULT_RUNTIME_STATE.clear()
